@@ -17,6 +17,7 @@ def dispatch (p : String) (inp obs : Json) : Drv.Res :=
   | "C20" => Drv.c20 inp obs
   | "C03" => Drv.c03 inp obs
   | "C05" => Drv.c05 inp obs
+  | "C06" => Drv.c06 inp obs
   | _ => { agree := false, specOk := false, why := s!"unknown property {p}" }
 
 def handleLine (line : String) : String :=
